@@ -605,6 +605,94 @@ def structure_oracles(ctx, quick):
 
 
 # ================================================================================================ vanilla value_mc
+def moment_structure_oracles(ctx, quick):
+    """deterministic consequences of the theorems of Props/C19f,g that are observable on the implementation (no statistics):
+    the closed forms the MC routines are compared with (vas_zero_price_exponent, vas_meanr_semigroup, vas_variancer_compose,
+    cir_meanr_eq_vas_meanr, vas_euler_mean_le_exact, vas_euler_variance_ge_exact), the full-truncation CIR Euler step below zero
+    (cirEulerPS_below_zero_deterministic), the Milstein lower bound (cirMilstein_lower_bound), positivity of LMM forwards
+    (lmmStep1F_pos / lmmStepMF_pos)."""
+    BS, G, PS, V, CIR, H, L = fp()
+    rng = ctx.rng('moment-structure')
+    n_cases = 12 if quick else 100
+    n_eval = 0
+    for _ in range(n_cases):
+        seed = rng.randint(1, 2 ** 31 - 1)
+        a, b, sg, r0 = rng.uniform(0.05, 1.5), rng.uniform(0.005, 0.09), rng.uniform(0.002, 0.05), rng.uniform(-0.01, 0.10)
+        t, s_ = rng.uniform(0.05, 12.0), rng.uniform(0.05, 5.0)
+        cs = dict(r0=r0, a=a, b=b, sigma=sg, t=t, s=s_)
+        # zero_price = exp(-M + V/2), M and V the mean and variance of the integrated OU rate (independent spelling)
+        B = (1.0 - math.exp(-a * t)) / a
+        M = b * t + (r0 - b) * B
+        Vv = sg * sg / (a * a) * (t - 2.0 * B + (1.0 - math.exp(-2.0 * a * t)) / (2.0 * a))
+        zp = float(V.zero_price(r0, a, b, sg, t))
+        want = math.exp(-M + Vv / 2.0)
+        if not abs(zp - want) <= 1e-12 * want:
+            ctx.violation('vasicek_mc.zero_price is not E[exp(-integral of r)] of the Gaussian integrated rate, exp(-M + V/2)',
+                          dict(cs, fn='vasicek_mc.zero_price', returned=zp, gaussian_expectation=want), clause='zero-price-closed-form')
+        # meanr is a flow, variancer composes
+        m1 = float(V.meanr(float(V.meanr(r0, a, b, s_)), a, b, t))
+        m2 = float(V.meanr(r0, a, b, s_ + t))
+        if not abs(m1 - m2) <= 1e-13 * max(1e-3, abs(m2)):
+            ctx.violation('vasicek_mc.meanr is not a flow: meanr(meanr(r0, s), t) != meanr(r0, s + t)',
+                          dict(cs, fn='vasicek_mc.meanr', composed=m1, direct=m2), clause='mean-closed-form')
+        v1 = math.exp(-2.0 * a * t) * float(V.variancer(a, sg, s_)) + float(V.variancer(a, sg, t))
+        v2 = float(V.variancer(a, sg, s_ + t))
+        if not abs(v1 - v2) <= 1e-12 * abs(v2):
+            ctx.violation('vasicek_mc.variancer does not compose: Var(s+t) != exp(-2at) Var(s) + Var(t)',
+                          dict(cs, fn='vasicek_mc.variancer', composed=v1, direct=v2), clause='variance-closed-form')
+        c1 = float(CIR.meanr(r0, a, b, t))
+        if not abs(c1 - float(V.meanr(r0, a, b, t))) <= 1e-14 * max(1e-3, abs(c1)):
+            ctx.violation('cir_montecarlo.meanr != vasicek_mc.meanr (same linear drift, same conditional mean)',
+                          dict(cs, fn='cir_montecarlo.meanr', cir=c1, vasicek=float(V.meanr(r0, a, b, t))), clause='mean-closed-form')
+        # Euler mean vs exact mean: sign of the bias (antithetic pair average of the implementation = Euler mean recursion)
+        nst = 12
+        if a / nst <= 1.0:
+            Pth = PS.get_vasicek_paths(3, nst, 1.0, r0, a, b, sg, 2, seed)
+            mean = (Pth[:3] + Pth[3:]) / 2
+            exact = np.array([float(V.meanr(r0, a, b, k / nst)) for k in range(Pth.shape[1])])
+            dev = (mean - exact[None, :]) * (1.0 if r0 >= b else -1.0)
+            if not float(dev.max()) <= 1e-13:
+                ctx.violation('get_vasicek_paths ANTITHETIC: the pair average (Euler mean) is on the wrong side of meanr — it must decay '
+                              'towards theta at least as fast as exp(-kappa t) for 0 <= kappa dt <= 1',
+                              dict(cs, fn='get_vasicek_paths', num_annual_steps=nst, scheme=2, seed=seed, worst=float(dev.max())), clause='euler-bias-sign')
+        if not float(V.variancer(a, sg, 1.0 / nst)) <= sg * sg / nst * (1 + 1e-14):
+            ctx.violation('vasicek_mc.variancer(dt) exceeds the Euler one-step variance sigma^2 dt', dict(cs, dt=1.0 / nst), clause='variance-closed-form')
+        # CIR full truncation: from r0 <= 0 the first EULER step is r0 + kappa*theta*dt for every path
+        kap, th, sig = rng.uniform(0.1, 2.0), rng.uniform(0.01, 0.09), rng.uniform(0.02, 0.5)
+        rneg = -rng.uniform(0.0, 0.02)
+        Pc = PS.get_cir_paths(6, 24, 0.5, rneg, kap, th, sig, 1, seed)
+        want1 = rneg + kap * th / 24.0
+        if not float(np.max(np.abs(Pc[:, 1] - want1))) <= 1e-15:
+            ctx.violation('get_cir_paths EULER (full truncation): from r0 <= 0 the first step is not the deterministic r0 + kappa*theta*dt',
+                          dict(fn='get_cir_paths', num_paths=6, num_annual_steps=24, t=0.5, r0=rneg, kappa=kap, theta=th, sigma=sig, scheme=1, seed=seed,
+                               returned=Pc[:, 1].tolist(), documented=want1), clause='full-truncation')
+        # CIR Milstein: from r >= 0 the next value is at least (kappa(theta - r) - sigma^2/4) dt
+        Pm = PS.get_cir_paths(6, 24, 1.0, rng.uniform(0.0, 0.08), kap, th, sig, 3, seed)
+        prev, nxt = Pm[:, :-1], Pm[:, 1:]
+        lb = (kap * (th - prev) - sig * sig / 4.0) / 24.0
+        ok = (prev < 0.0) | (nxt >= lb - 1e-14)
+        if not bool(np.all(ok)):
+            i, j = [int(x) for x in np.argwhere(~ok)[0]]
+            ctx.violation('get_cir_paths MILSTEIN: a step from r >= 0 is below (kappa(theta-r) - sigma^2/4) dt — the step is not the square '
+                          '(sqrt(r) + sigma sqrt(dt) z/2)^2 plus that drift', dict(fn='get_cir_paths', num_annual_steps=24, t=1.0, kappa=kap, theta=th,
+                          sigma=sig, scheme=3, seed=seed, path=i, step=j, r=float(prev[i, j]), r_next=float(nxt[i, j]), lower_bound=float(lb[i, j])),
+                          clause='milstein-square-form')
+        # LMM forwards stay positive (live triangle only)
+        n = rng.randint(3, 7)
+        fwd0 = np.array([rng.uniform(0.005, 0.08) for _ in range(n)])
+        taus = np.array([rng.choice([0.25, 0.5, 1.0]) for _ in range(n)])
+        gam = np.array([0.0] + [rng.uniform(0.05, 0.6) for _ in range(n - 1)])
+        lam = np.array([[0.0] + [rng.uniform(-0.2, 0.4) for _ in range(n - 1)] for _ in range(2)])
+        for nm, F in (('lmm_simulate_fwds_1f', L.lmm_simulate_fwds_1f(n, 8, 0, fwd0, gam, taus, 0, seed)),
+                      ('lmm_simulate_fwds_mf', L.lmm_simulate_fwds_mf(n, 2, 8, 0, fwd0, lam, taus, 0, seed))):
+            live = np.array([F[:, j, k] for j in range(n) for k in range(j, n)])
+            if not bool(np.all(live > 0.0)):
+                ctx.violation(f'{nm}: a forward that starts positive is not positive on the live triangle (the step multiplies by an exponential)',
+                              dict(fn=nm, num_fwds=n, fwd0=fwd0.tolist(), taus=taus.tolist(), seed=seed, minimum=float(live.min())), clause='lmm-positivity')
+        n_eval += 11
+    ctx.count('moment_structure_oracles', n_eval, n_eval, sample={'fn': 'vasicek_mc.zero_price', 'clause': 'zero-price-closed-form'})
+
+
 def mkdates():
     from financepy.utils.date import Date
     return Date(20, 3, 2024)
